@@ -209,11 +209,25 @@ func genDspec(r *emit.Rng, bad int) *dspec {
 	d.help = genValue(r, 5)
 	nc := r.Intn(5)
 	for i := 0; i < nc; i++ {
-		d.consts[genName(r, bad/2)] = genValue(r, bad/2)
+		d.consts[genName(r, bad/3)] = genValue(r, bad/3)
 	}
 	nv := r.Intn(5)
+	taken := func(n string) bool {
+		if _, ok := d.consts[n]; ok {
+			return true
+		}
+		for _, v := range d.vars {
+			if v == n {
+				return true
+			}
+		}
+		return false
+	}
 	for i := 0; i < nv; i++ {
-		n := genName(r, bad/2)
+		n := genName(r, bad/3)
+		for try := 0; try < 6 && taken(n); try++ { // accidental duplicates are rare; deliberate ones below
+			n = genName(r, 0)
+		}
 		if r.Intn(100) < bad/2 { // duplicate of an existing name
 			if len(d.vars) > 0 && r.Bool() {
 				n = d.vars[r.Intn(len(d.vars))]
@@ -697,6 +711,9 @@ func nativeCase(r *emit.Rng, bad int) (string, bool, []string) {
 		total += p.v
 	}
 	sum := r.AnyFloat()
+	if r.Chance(1, 6) {
+		sum = math.NaN()
+	}
 	tags := append(append(d.tags, t1...), t2...)
 	var count uint64
 	if total >= 0 {
@@ -967,9 +984,12 @@ func exHistCase(r *emit.Rng, bad int) (string, bool, []string) {
 			}
 		} else {
 			v = r.AnyFloat()
-			if v != v && !r.Chance(1, 4) {
+			if v != v {
 				v = 1e9
 			}
+		}
+		if r.Chance(1, 25) {
+			v = math.NaN()
 		}
 		if v != v {
 			nan = true
